@@ -19,9 +19,16 @@ func C28(c *Ctx) {
 	if fn == nil {
 		return
 	}
-	pw := need(c, r1, fn, false, "prewriteRegion", Named("raftstore/client.(*Client).prewriteRegion"), 2)
-	cm := need(c, r1, fn, false, "commitRegion", Named("raftstore/client.(*Client).commitRegion"), 2)
-	if len(pw) < 2 || len(cm) < 2 {
+	pw := need(c, r1, fn, false, "prewriteRegion", Named("raftstore/client.(*Client).prewriteRegion"), 1)
+	cm := need(c, r1, fn, false, "commitRegion", Named("raftstore/client.(*Client).commitRegion"), 1)
+	if len(pw) < 1 || len(cm) < 1 {
+		return
+	}
+	if len(pw) == 1 && len(cm) == 1 && blockInLoop(pw[0].Block()) && blockInLoop(cm[0].Block()) {
+		// the other accepted shape: one loop per phase over an ordered slice whose first element is
+		// the primary region
+		twoPhaseOrderedLoops(c, r1, fn, pw[0], cm[0])
+		twoPhaseCallOutcome(c, fn, pw, cm)
 		return
 	}
 	inLoop := func(ci ssa.CallInstruction) bool { return blockInLoop(ci.Block()) }
@@ -108,6 +115,11 @@ func C28(c *Ctx) {
 	}
 	c.Decide(g, r1, key(fn, "primary-group-present-guard"), fn.Pos(), 1, "the primary key must belong to one of the mutations' regions", "TwoPhaseCommit no longer requires the primary key's region among the mutation groups")
 
+	twoPhaseCallOutcome(c, fn, pw, cm)
+}
+
+// twoPhaseCallOutcome: per-region call outcome and argument pass-through (rule K1.region-call-outcome).
+func twoPhaseCallOutcome(c *Ctx, fn *ssa.Function, pw, cm []ssa.CallInstruction) {
 	const r2 = "K1.region-call-outcome"
 	c.Rule(r2, "prewriteRegion returns nil only when the response carries neither a region error nor key errors; commitRegion returns nil only when the response carries neither a region error nor a key error; RPC errors are returned; all prewrites carry the caller's primary and start version, all commits the caller's start and commit versions")
 	if f := c.Fn("raftstore/client", "Client.prewriteRegion"); f != nil {
@@ -130,6 +142,151 @@ func C28(c *Ctx) {
 			c.Decide(a[4] == p[4] && a[5] == p[5], r2, key(fn, fmt.Sprintf("commitRegion[%d]#args(startVersion,commitVersion)", i+1)), x.Pos(), 1, "same start and commit version in every commit", "a commit is sent with a different start / commit version than the caller's")
 		}
 	}
+}
+
+// twoPhaseOrderedLoops decides the single-loop-per-phase form of TwoPhaseCommit: both loops range
+// over one slice `order` whose first element is the primary region's id and which is not
+// reordered as a whole.
+func twoPhaseOrderedLoops(c *Ctx, r1 string, fn *ssa.Function, pw, cm ssa.CallInstruction) {
+	sliceOf := func(ci ssa.CallInstruction) ssa.Value {
+		// region id argument = element loaded from a slice (range loop)
+		arg := ci.Common().Args[2]
+		if u, ok := arg.(*ssa.UnOp); ok && u.Op == token.MUL {
+			if ia, ok := u.X.(*ssa.IndexAddr); ok {
+				// a slice variable captured by a closure lives in an alloc: identify it by the alloc
+				if ld, ok := ia.X.(*ssa.UnOp); ok && ld.Op == token.MUL {
+					if al, ok := ld.X.(*ssa.Alloc); ok {
+						return al
+					}
+				}
+				return ia.X
+			}
+		}
+		return nil
+	}
+	sp, sc := sliceOf(pw), sliceOf(cm)
+	same := sp != nil && sc != nil && sameSlice(sp, sc, 4)
+	c.Decide(same, r1, key(fn, "both-phases-range-over-one-order"), fn.Pos(), 2, "prewrite and commit loops range over the same ordered slice", "the prewrite and commit loops do not range over one ordered slice of region ids: the primary-first order cannot be established")
+	if !same {
+		return
+	}
+	// the slice's lineage: every append that produces it
+	lineage := map[ssa.Value]bool{}
+	var grow func(v ssa.Value, d int)
+	grow = func(v ssa.Value, d int) {
+		if v == nil || lineage[v] || d > 8 {
+			return
+		}
+		lineage[v] = true
+		switch x := v.(type) {
+		case *ssa.Phi:
+			for _, e := range x.Edges {
+				grow(e, d+1)
+			}
+		case *ssa.Call:
+			if bi, ok := x.Call.Value.(*ssa.Builtin); ok && bi.Name() == "append" {
+				grow(x.Call.Args[0], d+1)
+			}
+		case *ssa.Alloc:
+			for _, r := range *x.Referrers() {
+				switch y := r.(type) {
+				case *ssa.Store:
+					if y.Addr == x {
+						grow(y.Val, d+1)
+					}
+				case *ssa.UnOp:
+					lineage[y] = true
+				}
+			}
+		case *ssa.UnOp:
+			if al, ok := x.X.(*ssa.Alloc); ok && x.Op == token.MUL {
+				grow(al, d+1)
+			}
+		}
+	}
+	grow(sc, 0)
+	// first append: onto the fresh make([]T, 0, n), outside any loop; its value is the primary id
+	var firstVal ssa.Value
+	firstOK := false
+	for v := range lineage {
+		call, ok := v.(*ssa.Call)
+		if !ok {
+			continue
+		}
+		if _, isMake := call.Call.Args[0].(*ssa.MakeSlice); isMake && !blockInLoop(call.Block()) {
+			if sl, ok := call.Call.Args[1].(*ssa.Slice); ok {
+				// append(order, x) is compiled as append(order, [x]...): find the stored element
+				if al, ok := sl.X.(*ssa.Alloc); ok {
+					for _, r := range *al.Referrers() {
+						if ia, ok := r.(*ssa.IndexAddr); ok {
+							for _, r2 := range *ia.Referrers() {
+								if st, ok := r2.(*ssa.Store); ok {
+									firstVal = st.Val
+									firstOK = true
+								}
+							}
+						}
+					}
+				}
+			}
+		}
+	}
+	// the primary id: result of GetId() on the region looked up for the `primary` parameter
+	isPrimaryID := func(v ssa.Value) bool {
+		call, ok := v.(*ssa.Call)
+		if !ok {
+			return false
+		}
+		o := CalleeObj(call.Common())
+		if o == nil || o.Name() != "GetId" {
+			return false
+		}
+		for _, rk := range Calls(fn, false, Named("raftstore/client.(*Client).regionForKey")) {
+			if len(fn.Params) > 2 && rk.Common().Args[1] == ssa.Value(fn.Params[2]) {
+				// the GetId receiver derives from this lookup's result
+				if derivedFrom(call.Call.Args[0], map[ssa.Value]bool{rk.Value(): true}, 8) {
+					return true
+				}
+			}
+		}
+		return false
+	}
+	c.Decide(firstOK && isPrimaryID(firstVal), r1, key(fn, "order[0]=primary-region"), fn.Pos(), 3, "the ordered slice starts with the primary region", "the first element of the region order is not the primary key's region: a secondary could be committed before the primary")
+	// nothing reorders the whole slice
+	reorder := ""
+	for _, ci := range Calls(fn, false, func(cc *ssa.CallCommon) bool { return true }) {
+		if _, isB := ci.Common().Value.(*ssa.Builtin); isB {
+			continue
+		}
+		for _, a := range ci.Common().Args {
+			x := a
+			if mi, ok := x.(*ssa.MakeInterface); ok {
+				x = mi.X
+			}
+			if lineage[x] {
+				if o := CalleeObj(ci.Common()); o != nil {
+					reorder = ObjName(o)
+				} else {
+					reorder = "dynamic call"
+				}
+			}
+		}
+	}
+	c.Decide(reorder == "", r1, key(fn, "order#not-reordered"), fn.Pos(), len(lineage)+1, "the region order is only appended to and ranged over (a re-slice order[1:] may be sorted)", "the whole region order is handed to "+reorder+": the primary region does not stay first, so a secondary region can be committed before the primary and survive the primary's rollback")
+	// errors propagate, a failed prewrite never reaches a commit, all prewrites precede all commits
+	for i, x := range []ssa.CallInstruction{pw, cm} {
+		errPropagated(c, r1, key(fn, []string{"prewriteRegion", "commitRegion"}[i]+"[1]#error-propagated"), fn, x)
+	}
+	if ev := ErrResult(pw); ev != nil {
+		bad := false
+		for _, e := range NilEdges(fn, FlowSet(ev)) {
+			if blockReaches(e.NonNil[1], cm.Block()) {
+				bad = true
+			}
+		}
+		c.Decide(!bad, r1, key(fn, "prewriteRegion[1]#failure-never-commits"), pw.Pos(), 2, "a failed prewrite never leads to a commit", "a commit is reachable after a prewrite failed")
+	}
+	c.Decide(blockReaches(pw.Block(), cm.Block()) && !blockReaches(cm.Block(), pw.Block()), r1, key(fn, "commit-loop-after-prewrite-loop"), cm.Pos(), 2, "every prewrite precedes every commit", "the commit loop is not strictly after the prewrite loop")
 }
 
 func loopHeaderOf(b *ssa.BasicBlock) *ssa.BasicBlock {
